@@ -328,6 +328,103 @@ theorem C16_description_residual_witness :
     (slice12.toArg.parse sliceInput).toOption = some 0xeeb2e5840ef7 := by
   decide +kernel
 
+/-! ## The local check covers EVERY node of the description tree -/
+
+theorem Desc.ok_mk (p : IoArg.Info) (s : Nat) (ms : List Desc) :
+    (Desc.mk p s ms).ok = ((Desc.mk p s ms).okNode && Desc.oks ms) := by
+  simp only [Desc.ok, Desc.okNode] <;> rfl
+
+mutual
+/-- **C16 (argument description, every node).**  `Desc.ok` (the model of the
+check `receiveArgument` makes while it receives the tree) holds iff the
+one-record conditions hold at EVERY record of the tree: the argument, its
+members, their members (induction over the tree). -/
+theorem C16_desc_ok_iff_every_node (d : Desc) : d.ok = true ↔ ∀ n ∈ d.nodes, n.okNode = true := by
+  match d with
+  | .mk p s ms =>
+    have ih := C16_desc_oks_iff_every_node ms
+    rw [Desc.ok_mk]
+    simp only [Desc.nodes, List.mem_cons, forall_eq_or_imp, Bool.and_eq_true, ih]
+theorem C16_desc_oks_iff_every_node (ds : List Desc) :
+    Desc.oks ds = true ↔ ∀ n ∈ Desc.nodesL ds, n.okNode = true := by
+  match ds with
+  | [] => simp [Desc.oks, Desc.nodesL]
+  | d :: ds =>
+    have ih1 := C16_desc_ok_iff_every_node d
+    have ih2 := C16_desc_oks_iff_every_node ds
+    simp only [Desc.oks, Desc.nodesL, List.mem_append, Bool.and_eq_true, ih1, ih2]
+    constructor
+    · rintro ⟨h1, h2⟩ n (h | h)
+      · exact h1 n h
+      · exact h2 n h
+    · intro h
+      exact ⟨fun n hn => h n (Or.inl hn), fun n hn => h n (Or.inr hn)⟩
+end
+
+/-- Consequence: in an accepted description the size word of EVERY record
+whose type string carries a size (scalars, arrays of sized elements: at any
+depth) is that size: the width the evaluator packs that member with is the one
+its own type string names. -/
+theorem C16_desc_ok_every_width (d : Desc) (h : d.ok = true) :
+    ∀ n ∈ d.nodes, ∀ b, Desc.typeSize n.parsed = some b → n.size = b := by
+  intro n hn b hb
+  have hk := (C16_desc_ok_iff_every_node d).1 h n hn
+  cases n with
+  | mk p s ms =>
+    simp only [Desc.parsed] at hb
+    simp only [Desc.okNode, hb, Bool.and_eq_true, beq_iff_eq] at hk
+    simp only [Desc.size]
+    exact hk.1.1.symm
+
+namespace C16Desc
+open IoArg
+/-- `main(g uint16, e E)` with `type E struct { a uint8; b uint16; c [3]uint8 }`:
+the description of the evaluator's argument as the garbler sends it. -/
+def withArray : Desc :=
+  .mk (.base .struct 48 0) 48
+    [.mk (.base .uint 8 0) 8 [], .mk (.base .uint 16 0) 16 [], .mk (.elem .array 24 3 (.base .uint 8 0)) 24 []]
+/-- The same with the size word of member `c` changed in transit: 24 becomes 16
+(low byte xor 0x08). -/
+def withArrayCorrupted : Desc :=
+  .mk (.base .struct 48 0) 48
+    [.mk (.base .uint 8 0) 8 [], .mk (.base .uint 16 0) 16 [], .mk (.elem .array 24 3 (.base .uint 8 0)) 16 []]
+/-- The evaluator's input strings `2 300 0x010203` (every element non-zero). -/
+def withArrayInput : List StrFacts :=
+  [StrFacts.ofString "2" (some 2), StrFacts.ofString "300" (some 300), StrFacts.ofString "0x010203" (some 0x010203)]
+end C16Desc
+
+open C16Desc in
+/-- **Negation witness for a check applied once at the root** (the seeded
+change S119, `okRootOnly`; never the code of the repository): the array member
+counts with the size of its type string, so the root sum comes out right and
+the description is ACCEPTED, although member `c` is inconsistent with its own
+type string (`okNode` fails on it, `Desc.ok` rejects the tree).  The
+evaluator then packs `c` with 16 bits: element `c[2] = 3` is dropped
+(`0x0201012c02` instead of `0x030201012c02`) and with
+`f(g, e) = g + e.a + e.b + e.c[0] + 3*e.c[2]`, `g = 1` the session completes
+with 304 instead of 313. -/
+theorem C16_root_only_check_accepts_inconsistent_member :
+    withArray.ok = true ∧ withArray.okRootOnly = true ∧
+    withArrayCorrupted.okRootOnly = true ∧ withArrayCorrupted.ok = false ∧
+    (∃ n ∈ withArrayCorrupted.nodes, n ≠ withArrayCorrupted ∧ n.okNode = false ∧
+      Desc.typeSize n.parsed = some 24 ∧ n.size = 16) ∧
+    (withArray.toArg.parse withArrayInput).toOption = some 0x030201012c02 ∧
+    (withArrayCorrupted.toArg.parse withArrayInput).toOption = some 0x0201012c02 ∧
+    (1 + 2 + 300 + 1 + 3 * 3 = 313 ∧ 1 + 2 + 300 + 1 + 3 * 0 = 304) := by
+  refine ⟨by decide +kernel, by decide +kernel, by decide +kernel, by decide +kernel,
+    ⟨.mk (.elem .array 24 3 (.base .uint 8 0)) 16 [], by simp [Desc.nodes, Desc.nodesL, withArrayCorrupted], ?_, by decide +kernel, by decide +kernel,
+      by decide +kernel⟩, by decide +kernel, by decide +kernel, by decide⟩
+  intro h
+  have := congrArg Desc.size h
+  simp [Desc.size, withArrayCorrupted] at this
+
+/-- non-vacuity of `C16_desc_ok_iff_every_node` / `C16_desc_ok_every_width`: an
+accepted tree with members (4 records), and a member with a sized type string -/
+example : C16Desc.withArray.ok = true ∧ C16Desc.withArray.nodes.length = 4 := by decide +kernel
+example : ∃ n ∈ C16Desc.withArray.nodes, Desc.typeSize n.parsed = some 24 ∧ n.size = 24 :=
+  ⟨.mk (.elem .array 24 3 (.base .uint 8 0)) 24 [], by simp [Desc.nodes, Desc.nodesL, C16Desc.withArray], by decide +kernel, by decide +kernel⟩
+example : Desc.oks C16Desc.withArray.members = true := by decide +kernel
+
 /-- Evaluator-side decision logic: a wrong gate count in the first flight is an
 error, not an evaluation. -/
 theorem C16_wrong_gate_count (p : Circuit2) (key : List UInt8) (count : Nat) (ms : List (Msg L))
